@@ -9,8 +9,12 @@ Inductive c06case :=
 | BucketCase (name key : str) (n : N) (obs : N)
 | SplitCase (dps : list datapoint) (n : nat) (obs_whole : list entry) (obs_shards : list (list entry))
 (* batches dispatched (back to back or concurrently, possibly against full queues) to n workers;
-   obs = per worker, the dumps of the maps its aggregator received, in any order *)
-| DispatchCase (batches : list (list datapoint)) (n : nat) (obs : list (list (list entry))).
+   obs = per worker, the dumps of the maps its aggregator received, in any order.  The batches
+   whose index is in [cancelled] were dispatched under a context that was cancelled meanwhile:
+   each of their shards may arrive or not, but at most once and only at its own worker *)
+| DispatchCase (batches : list (list datapoint)) (cancelled : list nat) (n : nat) (obs : list (list (list entry)))
+(* Split called repeatedly in one process: (datapoints, n, observed shards) per call *)
+| SplitSeqCase (rounds : list (list datapoint * nat * list (list entry))).
 
 Fixpoint all2 {A B} (f : A -> B -> bool) (a : list A) (b : list B) : bool :=
   match a, b with
@@ -36,24 +40,44 @@ Definition worker_feed (i : nat) (sps : list (list mmap)) : list mmap :=
 Definition batch_splits (batches : list (list datapoint)) (n : nat) : list (list mmap) :=
   map (λ b, split_c n (receive_all empty_map b)) batches.
 
-(* multiset comparison: every observed dump matches a distinct expected map, none is left over
-   (a map delivered twice, or not at all, fails) *)
+(* multiset comparison: an observed dump matches a distinct expected map (a map delivered
+   twice, or one that is no shard of any batch, fails) *)
 Fixpoint remove_match (o : list entry) (exp : list mmap) : option (list mmap) :=
   match exp with
   | [] => None
   | m :: r => if dump_matches o m then Some r
               else match remove_match o r with Some r' => Some (m :: r') | None => None end
   end.
-Fixpoint match_multiset (obs : list (list entry)) (exp : list mmap) : bool :=
+
+(* every observed dump is a required map (all consumed at the end) or else an optional one,
+   each expected map used at most once *)
+Fixpoint match_multiset2 (obs : list (list entry)) (req opt : list mmap) : bool :=
   match obs with
-  | [] => is_nil exp
-  | o :: r => match remove_match o exp with Some e' => match_multiset r e' | None => false end
+  | [] => is_nil req
+  | o :: r => match remove_match o req with
+              | Some req' => match_multiset2 r req' opt
+              | None => match remove_match o opt with
+                        | Some opt' => match_multiset2 r req opt'
+                        | None => false
+                        end
+              end
   end.
 
-Definition check_dispatch (batches : list (list datapoint)) (n : nat) (obs : list (list (list entry))) : bool :=
+Definition pick_batches {A} (want_cancelled : bool) (cancelled : list nat) (l : list A) : list A :=
+  map snd (List.filter (λ p, Bool.eqb (existsb (Nat.eqb (fst p)) cancelled) want_cancelled)
+                       (combine (seq 0 (length l)) l)).
+
+Definition check_dispatch (batches : list (list datapoint)) (cancelled : list nat) (n : nat)
+    (obs : list (list (list entry))) : bool :=
   let sps := batch_splits batches n in
+  let req := pick_batches false cancelled sps in
+  let opt := pick_batches true cancelled sps in
   (length obs =? n)%nat &&
-  all2 (λ i o, match_multiset (List.filter (λ es, negb (is_nil es)) o) (worker_feed i sps)) (seq 0 n) obs.
+  all2 (λ i o, match_multiset2 (List.filter (λ es, negb (is_nil es)) o) (worker_feed i req) (worker_feed i opt))
+       (seq 0 n) obs.
+
+Definition check_round (r : list datapoint * nat * list (list entry)) : bool :=
+  let '(dps, n, shards) := r in all2 dump_matches shards (split_c n (receive_all empty_map dps)).
 
 Definition check_case (c : c06case) : bool :=
   match c with
@@ -62,18 +86,23 @@ Definition check_case (c : c06case) : bool :=
   | SplitCase dps n whole shards =>
       let m := receive_all empty_map dps in
       dump_matches whole m && all2 dump_matches shards (split_c n m)
-  | DispatchCase batches n obs => check_dispatch batches n obs
+  | DispatchCase batches cancelled n obs => check_dispatch batches cancelled n obs
+  | SplitSeqCase rounds => forallb check_round rounds
   end.
 
 Inductive c06explain :=
 | XKey (k : str) | XBucket (b : N) | XSplit (whole : list entry) (shards : list (list entry))
-| XDispatch (feeds : list (list (list entry))).
+| XDispatch (required optional : list (list (list entry)))
+| XSplitSeq (shards : list (list (list entry))).
 Definition explain_case (c : c06case) : c06explain :=
   match c with
   | KeyCase src tags _ => XKey (tags_key src tags)
   | BucketCase name key n _ => XBucket (bucket name key n)
   | SplitCase dps n _ _ => let m := receive_all empty_map dps in XSplit (entries m) (map entries (split_c n m))
-  | DispatchCase batches n _ =>
+  | DispatchCase batches cancelled n _ =>
       let sps := batch_splits batches n in
-      XDispatch (map (λ i, map entries (worker_feed i sps)) (seq 0 n))
+      XDispatch (map (λ i, map entries (worker_feed i (pick_batches false cancelled sps))) (seq 0 n))
+                (map (λ i, map entries (worker_feed i (pick_batches true cancelled sps))) (seq 0 n))
+  | SplitSeqCase rounds =>
+      XSplitSeq (map (λ r, let '(dps, n, _) := r in map entries (split_c n (receive_all empty_map dps))) rounds)
   end.
